@@ -387,3 +387,18 @@ Example ex_C10_balanced_read :
   | _ => False
   end.
 Proof. vm_compute. repeat split; reflexivity. Qed.
+
+(** ---- tie to the source by translation: the element-wise masks of the balancing filters (diagonal band, trans, cis)
+    are regenerated per pixel from _balance.py on every run (tools/py2v.py -> Gen.bal_diag_mask, bal_trans_mask,
+    bal_cis_mask) and are exactly the conditions of the model's filters; the masked assignment, the binarisation and the
+    two bincounts of the marginal are pinned. *)
+From Cooler Require Import Gen.Translated Proofs.GenBridgeBalance.
+Theorem C10_source_filter_masks_are_model : forall d chroms w,
+  f_zero_diags d w = (if Gen.bal_diag_mask (b1 w) (b2 w) d then (fst w, 0%Q) else w) /\
+  f_zero_trans chroms w = (if Gen.bal_trans_mask (chrom_of chroms (b1 w)) (chrom_of chroms (b2 w)) then (fst w, 0%Q) else w) /\
+  f_zero_cis chroms w = (if Gen.bal_cis_mask (chrom_of chroms (b1 w)) (chrom_of chroms (b2 w)) then (fst w, 0%Q) else w).
+Proof. intros. split; [apply gen_zero_diags|split; [apply gen_zero_trans|apply gen_zero_cis]]. Qed.
+Print Assumptions C10_source_filter_masks_are_model.
+Theorem C10_source_filter_pins : Gen.balance_filter_pins = true.
+Proof. exact gen_balance_filter_pins. Qed.
+Print Assumptions C10_source_filter_pins.
